@@ -266,6 +266,8 @@ pub enum AnyAccept {
     Exact(String),
     /// everything that does not start with a dash
     NoDash,
+    /// everything except this item
+    Not(String),
 }
 
 #[derive(Clone, Debug, PartialEq, Eq, Hash)]
